@@ -143,10 +143,35 @@ Definition candidates (s0 : flat) (ops : list hop) : list (path * Z) :=
                            | _, _ => []
                            end) ops.
 
+(** a delete is atomic with respect to a traversal: of the leaves one Delete
+    removed (its returned paths) that the traversal selects, the traversal
+    reports all or none -- unless the delete was invoked only after the traversal returned, or some
+    other operation of the window also adds or removes one of them (then the
+    history does not determine it). *)
+Definition touches_path (b : hop) (p : path) : bool :=
+  match o_op b with
+  | ADelete q => qmatch q p
+  | AAdd p' _ => path_eqb p' p
+  | AHUpd p' _ => path_eqb p' p
+  | _ => false
+  end.
+
+Definition delete_split_free (ops : list hop) (qy : hop) (q : path) (l : list (path * Z)) : bool :=
+  forallb (fun d =>
+    match o_op d, o_ret d with
+    | ADelete _, RsPaths removed =>
+        let m := filter (qmatch q) removed in
+        let disturbed :=
+          existsb (fun b => negb (Nat.eqb (o_inv b) (o_inv d)) && existsb (touches_path b) m) ops in
+        let seen := filter (fun p => existsb (fun x => path_eqb p (fst x)) l) m in
+        precedesb qy d || disturbed || is_nil seen || Nat.eqb (List.length seen) (List.length m)
+    | _, _ => true
+    end) ops.
+
 Definition query_ok (s0 : flat) (ops : list hop) (qy : hop) : bool :=
   match o_op qy, o_ret qy with
   | AQuery q, RsLeaves l =>
-      nodup_paths l
+      nodup_paths l && delete_split_free ops qy q l
       && forallb (fun x => qmatch q (fst x) && possibly_present s0 ops qy x) l
       && forallb (fun x => negb (qmatch q (fst x) && stable_present s0 ops qy x) || mem_leaf x l)
                  (candidates s0 ops)
@@ -182,6 +207,8 @@ Inductive sop :=
 | SGetVal (p : path)
 | SQuery (q : path)
 | SQueryErr (q : path) (k : nat)  (* Query whose visitor returns an error at its (k+1)-th call *)
+| SWalk (failat : option nat)    (* Walk / WalkSorted (same locking as Query []), visitor failing at call failat+1 *)
+| SDelCond (q : path)            (* DeleteConditional with the always-true condition *)
 | SDelete (q : path)
 | SHold (p : path) (v : Z).     (* Leaf.Update on the leaf at p, paused inside its critical section *)
 
@@ -197,6 +224,8 @@ Definition cop_of (h : heap) (o : sop) : cop :=
   | SGetVal p => CGetVal p
   | SQuery q => CQuery q None
   | SQueryErr q k => CQuery q (Some k)
+  | SWalk f => CQuery [] f
+  | SDelCond q => CDelete q
   | SDelete q => CDelete q
   | SHold p v =>
       (* the harness takes handles to leaves only (a handle to a branch is
@@ -419,6 +448,9 @@ Definition aop_of (o : sop) : aop :=
   | SGetVal p => AGetVal p
   | SQuery q => AQuery q
   | SQueryErr q _ => AQueryErr q
+  | SWalk None => AQuery []
+  | SWalk (Some _) => AQueryErr []
+  | SDelCond q => ADelete q
   | SDelete q => ADelete q
   | SHold p v => AHUpd p v
   end.
@@ -445,7 +477,10 @@ Definition handleish (o : sop) : bool :=
   match o with SHold _ _ | SGetVal _ => true | _ => false end.
 
 Definition sop_path (o : sop) : path :=
-  match o with SAdd p _ | SGetVal p | SQuery p | SQueryErr p _ | SDelete p | SHold p _ => p end.
+  match o with
+  | SAdd p _ | SGetVal p | SQuery p | SQueryErr p _ | SDelete p | SDelCond p | SHold p _ => p
+  | SWalk _ => []
+  end.
 
 Definition coupling_ok (prog : list sop) (o : sobs) : bool :=
   let idx := seq 0 (List.length prog) in
